@@ -241,7 +241,9 @@ func (state *peeringRequestState) handlePeeringRequest(in frame.Frame) (frame.Fr
 		return nil, errors.New("universe mismatch")
 	}
 	// Add universe auth, if set.
-	if r.Universe != "" && state.peering.instance.Config().Router.UniverseSecret != "" {
+	// The remote router demands it whenever it has a secret configured, also
+	// in the default (unnamed) universe.
+	if state.peering.instance.Config().Router.UniverseSecret != "" {
 		resp.UniverseAuth = makeUniverseAuth(
 			r.Universe,
 			state.peering.instance.Config().Router.UniverseSecret,
